@@ -46,6 +46,13 @@ Proof.
   split; [rewrite E; repeat rewrite <- app_assoc; cbn [app]; repeat rewrite <- app_assoc; reflexivity|rewrite app_length; cbn [length]; lia].
 Qed.
 
+Lemma at_off_reapply off x : at_off off (EReapply x) -> at_off (off + 2) x.
+Proof.
+  intros (pre & post & E & L). cbn [aprint] in E.
+  exists (pre ++ [aop TT_Reapply; aws]), post.
+  split; [rewrite E; repeat rewrite <- app_assoc; cbn [app]; repeat rewrite <- app_assoc; reflexivity|rewrite app_length; cbn [length]; lia].
+Qed.
+
 Theorem sim_all : forall e, efrag LV e = true -> paren_ok e = true ->
   forall t off, rep e off t -> dn t -> at_off off e -> forall c, inl_spec c e t /\ chain_spec c e t.
 Proof.
@@ -135,6 +142,12 @@ Proof.
     assert (H : inl_spec c (ENested label e) (NGroup BCurly i off a)).
     { apply step_nested; [exact G|]. intros c'.
       apply (IHe G (paren_ok_nested _ _ P) _ _ Rx (dn_group _ _ _ _ D) (at_off_nested _ _ _ A) c'). }
+    split; [exact H|apply chain_of_plain; [reflexivity|exact H]].
+  - (* re-apply *)
+    cbn [rep] in R. destruct t as [|i d k a| | |]; try contradiction. destruct R as (-> & -> & Rx).
+    assert (H : inl_spec c (EReapply e) (NPre i (hdef (EReapply e)) off a)).
+    { apply step_reapply.
+      apply (IHe G (paren_ok_reapply _ P) _ _ Rx (dn_pre _ _ _ _ D) (at_off_reapply _ _ A) c). }
     split; [exact H|apply chain_of_plain; [reflexivity|exact H]].
 Qed.
 
